@@ -120,17 +120,31 @@ def build_engine(engine, config):
 
 
 # ----------------------------------------------------------------- batches
+def crash_detail(err):
+    i = err.find('ERROR:')
+    if i < 0:
+        i = err.find('Assertion in')
+    if i < 0:
+        i = err.find('runtime error')
+    if i < 0:
+        return err[-2500:]
+    j = err.find('Shadow bytes around', i)
+    return err[max(0, i - 200):(j if j > 0 else i + 2500)][:2500]
+
+
 def classify_crash(rc, err):
     m = re.search(r'Assertion in (\S+?)::(\d+)', err)
     if m:
         return f'crash:assert:{os.path.basename(m.group(1))}:{m.group(2)}'
     m = re.search(r'ERROR: AddressSanitizer: (\S+)', err)
     if m:
+        # outermost library frame of the first stack = the API entry the harness called
         fn = ''
-        for fm in re.finditer(r'#\d+ 0x[0-9a-f]+ in (\S+) (\S+)', err):
-            if '/repo/' in fm.group(2) or 'src/' in fm.group(2):
+        first = err[m.end():]
+        first = first[:first.find('\n\n')] if '\n\n' in first else first
+        for fm in re.finditer(r'#\d+ 0x[0-9a-f]+ in (\S+) (\S+)', first):
+            if '/src/' in fm.group(2) and '/sim/' not in fm.group(2):
                 fn = ':' + fm.group(1)
-                break
         return f'crash:asan:{m.group(1)}{fn}'
     m = re.search(r'runtime error: ([^\n]{0,60})', err)
     if m:
@@ -199,7 +213,7 @@ def run_leg(leg, seed, tier, tmpdir, digests=False, workers=None):
                 leg.faults.append({'idx': -1, 'detail': f'worker died outside a run rc={r.returncode} {r.stderr[-400:]}'})
                 break
             leg.crashes.append({'idx': idx1 - 1, 'run_seed': rs, 'rc': r.returncode,
-                                'cls': classify_crash(r.returncode, r.stderr), 'detail': r.stderr[-3000:]})
+                                'cls': classify_crash(r.returncode, r.stderr), 'detail': crash_detail(r.stderr)})
             cur = idx1
             if len(leg.crashes) > 40:
                 break
@@ -263,7 +277,9 @@ def run_one(binary, run_seed, tier, variant, prop, keep=None, text=False, timeou
             res['detail'] = line[7:]
     if r.returncode not in (0, 1, 2) or not res['digest']:
         res['cls'] = classify_crash(r.returncode, r.stderr)
-        res['detail'] = r.stderr[-3000:]
+        res['detail'] = crash_detail(r.stderr)
+        if res['nops'] == 0:
+            res['nops'] = 64   # crashed before reporting its plan size: indices beyond the plan are ignored
     return res
 
 
